@@ -19,10 +19,34 @@ pub fn counts_spec(s: &[u8], k: usize) -> (Vec<u64>, u64) {
 }
 
 pub fn run_oligo(recs: &[Vec<u8>], k: usize, norm: bool, threads: usize, delim: &str, header: bool, memory: Option<usize>) -> Result<String, String> {
+    run_oligo_in(recs, k, norm, threads, delim, header, memory, "fa")
+}
+
+/// container: fa | fa-wrap | fq | fa-gz | fq-gz
+pub fn run_oligo_in(recs: &[Vec<u8>], k: usize, norm: bool, threads: usize, delim: &str, header: bool, memory: Option<usize>, container: &str) -> Result<String, String> {
+    use std::io::Write;
     let sc = Scratch::new("oligo");
-    let inp = sc.path("in.fa");
     let out = sc.path("out.txt");
-    write_fasta(&inp, recs);
+    let mut bytes: Vec<u8> = Vec::new();
+    let fq = container.starts_with("fq");
+    for (i, r) in recs.iter().enumerate() {
+        if fq {
+            bytes.extend_from_slice(format!("@r{}\n", i).as_bytes()); bytes.extend_from_slice(r); bytes.extend_from_slice(b"\n+\n");
+            for j in 0..r.len() { bytes.push(b"@I+5@"[(j + r.len()) % 5]); }
+            bytes.push(b'\n');
+        } else {
+            bytes.extend_from_slice(format!(">r{}\n", i).as_bytes());
+            if container == "fa-wrap" { for ch in r.chunks(7) { bytes.extend_from_slice(ch); bytes.push(b'\n'); } } else { bytes.extend_from_slice(r); bytes.push(b'\n'); }
+        }
+    }
+    let gz = container.ends_with("-gz");
+    let inp = sc.path(&format!("in.{}{}", if fq { "fq" } else { "fa" }, if gz { ".gz" } else { "" }));
+    if gz {
+        let mut e = flate2::write::GzEncoder::new(Vec::new(), flate2::Compression::default());
+        e.write_all(&bytes).unwrap();
+        bytes = e.finish().unwrap();
+    }
+    std::fs::write(&inp, bytes).unwrap();
     let d = delim.to_string();
     let (i2, o2) = (inp.clone(), out.clone());
     let r = guarded(move || {
@@ -164,11 +188,25 @@ pub fn c14(o: &Opts) -> Outcome {
     let mut cases = 0u64;
     if let Some(inp) = &o.input {
         let recs: Vec<Vec<u8>> = inp["records"].split('|').map(unshow).collect();
+        if inp.get("sub").map(|s| s == "ctr").unwrap_or(false) {
+            return Outcome { cases: 1, witness: crate::p_count::c07_one(&recs, inp["k"].parse().unwrap(), inp["threads"].parse().unwrap(), inp["mem"].parse().unwrap(), inp["acgt"] == "true") };
+        }
         return Outcome { cases: 1, witness: c14_one(&recs, inp["k"].parse().unwrap(), &inp["delim"], inp["header"] == "true", inp["threads"].parse().unwrap()) };
     }
     let mut rng = Rng(o.seed.wrapping_mul(0x9E3779B97F4A7C15) | 1);
     // delimiters that keep a failing write physically inside the last mapped page first
-    for delim in ["", " ", ",", "\t", "ab", ";;;"] {
+    // counting partitions: more partitions than threads (tiny memory ceiling) exercises the unchecked partition index
+    {
+        let recs: Vec<Vec<u8>> = (0..12).map(|_| { let l = 150 + rng.below(60) as usize; random_seq(&mut rng, l, 5).iter().map(|&b| if b < 0x21 || b > 0x7e || b == b'>' { b'N' } else { b }).collect() }).collect();
+        for (threads, mem) in [(2usize, 1e-7f64), (1, 3e-7)] {
+            cases += 1;
+            if let Some(mut w) = crate::p_count::c07_one(&recs, 11, threads, mem, false) {
+                w.push(("sub".into(), "ctr".into()));
+                return Outcome { cases, witness: Some(w) };
+            }
+        }
+    }
+    for delim in ["", " ", ",", "\t", "\u{00B7}", "\u{2192}", "ab", ";;;"] {
         for k in 1..=3usize {
             for header in [false, true] {
                 for nrec in [1usize, 2, 3] {
@@ -215,6 +253,23 @@ pub fn c05(o: &Opts) -> Outcome {
     if let Some(inp) = &o.input {
         let recs: Vec<Vec<u8>> = inp["records"].split('|').map(unshow).collect();
         return Outcome { cases: 1, witness: one(&recs, inp["k"].parse().unwrap(), inp["norm"] == "true", inp["threads"].parse().unwrap(), inp["mem"].parse().unwrap(), inp["header"] == "true", &inp["delim"]) };
+    }
+    // the same records through every container give the same bytes
+    for round in 0..(if o.thorough { 12 } else { 3 }) {
+        let n = 2 + rng.below(20) as usize;
+        let recs: Vec<Vec<u8>> = (0..n).map(|_| { let l = 1 + rng.below(120) as usize; random_seq(&mut rng, l, 10).iter().map(|&b| if b < 0x21 || b > 0x7e || b == b'>' || b == b'@' || b == b'+' { b'N' } else { b }).collect() }).collect();
+        for norm in [true, false] {
+            let base = run_oligo_in(&recs, 1 + round % 3, norm, 2, " ", false, None, "fa");
+            for c in ["fa-wrap", "fq", "fa-gz", "fq-gz"] {
+                cases += 1;
+                let other = run_oligo_in(&recs, 1 + round % 3, norm, 2, " ", false, None, c);
+                if other != base {
+                    return Outcome { cases, witness: Some(vec![("records".into(), recs.iter().map(|r| show(r)).collect::<Vec<_>>().join("|")), ("k".into(), (1 + round % 3).to_string()), ("norm".into(), norm.to_string()),
+                        ("threads".into(), "2".into()), ("mem".into(), (4usize << 30).to_string()), ("header".into(), "false".into()), ("delim".into(), " ".into()), ("container".into(), c.to_string()),
+                        ("why".into(), format!("output for container {} differs from the single-line FASTA output", c))]) };
+                }
+            }
+        }
     }
     // many short records, many workers: a row claimed by anything but the record's own ordinal shows up here
     for rep in 0..(if o.thorough { 12 } else { 3 }) {
